@@ -392,6 +392,9 @@ impl DB {
         let get_result = parking_lot::MutexGuard::unlocked_fair(
             &mut db_fields_guard,
             || -> RainDBResult<Option<Vec<u8>>> {
+                #[cfg(feature = "verif")]
+                crate::verif::pause("get.unlocked", &[]);
+
                 let internal_key = InternalKey::new_for_seeking(key.to_vec(), snapshot);
 
                 // Check the memtable first
@@ -405,6 +408,9 @@ impl DB {
                         }
                     }
                 }
+
+                #[cfg(feature = "verif")]
+                crate::verif::pause("get.before_imm", &[]);
 
                 // Check the immutable memtable (i.e. the memtable pending compaction) if there is
                 // one
@@ -420,6 +426,9 @@ impl DB {
                         }
                     }
                 }
+
+                #[cfg(feature = "verif")]
+                crate::verif::pause("get.before_tables", &[]);
 
                 // Check table files on disk
                 match current_version
@@ -1228,14 +1237,26 @@ impl DB {
                     WAL and to the memtable.
                     */
 
+                    #[cfg(feature = "verif")]
+                    crate::verif::pause(
+                        "write.before_wal",
+                        &[prev_sequence_number + 1, write_batch.len() as u64],
+                    );
+
                     // Write the changes to the write-ahead log first
                     unsafe {
                         // SAFETY: RainDB only allows one writer thread at a time.
                         (*self.wal().get()).append(&Vec::<u8>::from(&write_batch))?;
                     }
 
+                    #[cfg(feature = "verif")]
+                    crate::verif::pause("write.after_wal", &[]);
+
                     // Write the changes to the memtable
                     DB::apply_batch_to_memtable(&**self.memtable(), &write_batch);
+
+                    #[cfg(feature = "verif")]
+                    crate::verif::pause("write.after_mem", &[]);
 
                     Ok(())
                 },
@@ -1255,6 +1276,12 @@ impl DB {
             fields_mutex_guard
                 .version_set
                 .set_prev_sequence_number(sequence_number_after_write);
+
+            #[cfg(feature = "verif")]
+            crate::verif::note(
+                "seq.publish",
+                &[sequence_number_after_write, write_result.is_ok() as u64],
+            );
         }
 
         loop {
@@ -1427,6 +1454,9 @@ impl DB {
                 mutex_guard.maybe_immutable_memtable = Some(Arc::clone(&old_memtable));
                 self.has_immutable_memtable.store(true, Ordering::Release);
 
+                #[cfg(feature = "verif")]
+                crate::verif::note("mem.rotate", &[new_wal_number]);
+
                 // Do not force another compaction since we have room
                 force_compaction = false;
 
@@ -1531,6 +1561,10 @@ impl DB {
                 batch_element.get_operation(),
             );
             let value = batch_element.get_value().map_or(vec![], |val| val.to_vec());
+
+            #[cfg(feature = "verif")]
+            crate::verif::pause("write.mem_insert", &[curr_sequence_num]);
+
             memtable.insert(internal_key, value);
 
             curr_sequence_num += 1;
@@ -1683,6 +1717,10 @@ impl DB {
         }
 
         mutex_guard.maybe_bad_database_state = Some(catastrophic_error);
+
+        #[cfg(feature = "verif")]
+        crate::verif::note("bg.error", &[]);
+
         db_state.background_work_finished_signal.notify_all();
     }
 
@@ -1764,12 +1802,20 @@ impl DB {
         parking_lot::MutexGuard::<'_, GuardedDbFields>::unlocked_fair(
             db_fields_guard,
             || -> RainDBResult<()> {
-                DB::build_table_from_iterator(
+                #[cfg(feature = "verif")]
+                crate::verif::pause("flush.before_build", &[file_number]);
+
+                let build_result = DB::build_table_from_iterator(
                     &db_state.options,
                     &mut file_metadata,
                     memtable.iter(),
                     &db_state.table_cache,
-                )
+                );
+
+                #[cfg(feature = "verif")]
+                crate::verif::pause("flush.after_build", &[file_number]);
+
+                build_result
             },
         )?;
 
@@ -2084,8 +2130,17 @@ impl DB {
         Unblock other threads while deleting files. All of the files being deleted have unique
         names that will not collide with newly created files so it is safe to release the lock.
         */
+        #[cfg(feature = "verif")]
+        crate::verif::note("gc.plan", &[files_to_delete.len() as u64]);
+
         parking_lot::MutexGuard::<'_, GuardedDbFields>::unlocked_fair(db_fields_guard, move || {
+            #[cfg(feature = "verif")]
+            crate::verif::pause("gc.before_delete", &[files_to_delete.len() as u64]);
+
             for file in files_to_delete {
+                #[cfg(feature = "verif")]
+                crate::verif::pause("gc.delete_one", &[]);
+
                 log::info!("Removing obsolete file: {:?}", &file);
                 if let Err(error) = filesystem_provider.remove_file(&file) {
                     log::error!(
@@ -2261,6 +2316,9 @@ impl Drop for DB {
         // Drop the database lock
         self.db_lock.take();
 
+        #[cfg(feature = "verif")]
+        crate::verif::pause("close.lock_released", &[]);
+
         // Clean-up WAL pointer
         unsafe {
             // SAFETY: We do a null check before loading and dropping the memory reference.
@@ -2283,6 +2341,59 @@ impl Drop for DB {
                 panic::resume_unwind(thread_panic_val);
             }
         }
+    }
+}
+
+/// Read-only accessors for external runtime monitors.
+#[cfg(feature = "verif")]
+impl DB {
+    /// Read a few state fields under the database mutex.
+    pub fn verif_probe(&self) -> crate::verif::Probe {
+        let db_fields_guard = self.guarded_fields.lock();
+        let version_set = &db_fields_guard.version_set;
+        let mut live_files: Vec<u64> = version_set.get_live_files().into_iter().collect();
+        live_files.sort_unstable();
+        let mut tables_in_use: Vec<u64> = db_fields_guard.tables_in_use.iter().copied().collect();
+        tables_in_use.sort_unstable();
+
+        crate::verif::Probe {
+            has_immutable_memtable: db_fields_guard.maybe_immutable_memtable.is_some(),
+            background_compaction_scheduled: db_fields_guard.background_compaction_scheduled,
+            needs_compaction: version_set.needs_compaction(),
+            bad_state: db_fields_guard
+                .maybe_bad_database_state
+                .as_ref()
+                .map(|err| err.to_string()),
+            prev_sequence_number: version_set.get_prev_sequence_number(),
+            curr_wal_number: version_set.get_curr_wal_number(),
+            prev_wal_number: version_set.maybe_prev_wal_number(),
+            manifest_file_number: version_set.get_manifest_file_number(),
+            num_versions: version_set.verif_num_versions(),
+            live_files,
+            tables_in_use,
+            manual_compaction_pending: db_fields_guard.maybe_manual_compaction.is_some(),
+            num_snapshots: db_fields_guard.snapshots.verif_len(),
+        }
+    }
+
+    /// Get the table file layout of the current version.
+    pub fn verif_files(&self) -> Vec<crate::verif::FileInfo> {
+        let db_fields_guard = self.guarded_fields.lock();
+        let current_version = db_fields_guard.version_set.get_current_version();
+        let mut files = vec![];
+        for (level, level_files) in current_version.read().element.files.iter().enumerate() {
+            for file in level_files {
+                files.push(crate::verif::FileInfo {
+                    level,
+                    number: file.file_number(),
+                    size: file.get_file_size(),
+                    smallest: file.smallest_key().into(),
+                    largest: file.largest_key().into(),
+                });
+            }
+        }
+
+        files
     }
 }
 
